@@ -211,4 +211,51 @@ HUFF_FUNCS = [
     _hf('UpdateCodeCount'), _hf('VerifyNodeIndexInBounds'), _hf('VerifyNodeDataInBounds'),
     _hf('SwapNodes', autos={'temp': 'uint16_t'}), _hf('GetEncodedBitString'),
 ]
-unit({'name': 'huff', 'typemap': HUFF_TM, 'structs': HUFF_STRUCTS, 'calls': HUFF_CALLS, 'functions': HUFF_FUNCS})
+unit({'name': 'huff', 'includes': ['huffc.h'], 'typemap': HUFF_TM, 'structs': HUFF_STRUCTS, 'calls': HUFF_CALLS, 'functions': HUFF_FUNCS})
+
+# --------------------------------------------------------------------------- U-BSR
+BS = 'src/Archive/BitStreamReader.cpp'
+def _bs(name, **kw):
+    d = {'file': BS, 'qual': 'BitStreamReader::' + name, 'cls': 'BitStreamReader', 'cname': 'BitStreamReader_' + name}
+    d.update(kw); return d
+unit({
+    'name': 'bsr',
+    'includes': ['bsr.h'],
+    'typemap': {'BitStreamReader': 'BitStreamReader'},
+    'structs': [('src/Archive/BitStreamReader.h', 'BitStreamReader')],
+    'functions': [_bs('BitStreamReader', cname='BitStreamReader_ctor', ctor=True), _bs('ReadNextBit'), _bs('ReadNext8Bits'), _bs('EndOfStream'), _bs('GetBitReadPos')],
+})
+
+# --------------------------------------------------------------------------- U-LZ
+LZ = 'src/Archive/HuffLZ.cpp'
+def _lz(name, **kw):
+    d = {'file': LZ, 'qual': 'HuffLZ::' + name, 'cls': 'HuffLZ', 'cname': 'HuffLZ_' + name}
+    d.update(kw); return d
+unit({
+    'name': 'lz',
+    'includes': ['lzh.spec.h', 'bsr.h', 'huffc.h'],
+    'typemap': dict(HUFF_TM, **{'BitStreamReader': 'BitStreamReader', 'HuffLZ': 'HuffLZ', 'OffsetModifiers': 'OffsetModifiers', 'HuffLZ::OffsetModifiers': 'OffsetModifiers'}),
+    'structs': [('src/Archive/BitStreamReader.h', 'BitStreamReader'), VIEW('vec_u16', 'uint16_t'), ('src/Archive/AdaptiveHuffmanTree.h', 'AdaptiveHuffmanTree'),
+                ('src/Archive/HuffLZ.h', 'OffsetModifiers'), ('src/Archive/HuffLZ.h', 'HuffLZ')],
+    'calls': {
+        'InitializeDecompressBuffer': N('HuffLZ_InitializeDecompressBuffer'),
+        'FillDecompressBuffer': T('HuffLZ_FillDecompressBuffer'),
+        'CopyAvailableData': N('HuffLZ_CopyAvailableData'),
+        'DecompressCode': T('HuffLZ_DecompressCode'),
+        'GetNextCode': T('HuffLZ_GetNextCode'),
+        'GetRepeatOffset': N('HuffLZ_GetRepeatOffset'),
+        'WriteCharToBuffer': N('HuffLZ_WriteCharToBuffer'),
+        'GetOffsetModifiers': N('HuffLZ_GetOffsetModifiers', recv='none'),
+        'ReadNextBit': N('BitStreamReader_ReadNextBit'), 'ReadNext8Bits': N('BitStreamReader_ReadNext8Bits'), 'EndOfStream': N('BitStreamReader_EndOfStream'),
+        'UpdateCodeCount': T('AdaptiveHuffmanTree_UpdateCodeCount'), 'GetRootNodeIndex': N('AdaptiveHuffmanTree_GetRootNodeIndex'),
+        'IsLeaf': T('AdaptiveHuffmanTree_IsLeaf'), 'GetChildNode': T('AdaptiveHuffmanTree_GetChildNode'), 'GetNodeData': T('AdaptiveHuffmanTree_GetNodeData'),
+        'AdaptiveHuffmanTree': N('AdaptiveHuffmanTree_make', recv='none'),
+        'memcpy': N('op2_memcpy', recv='none'), 'memset': N('op2_memset', recv='none'),
+    },
+    'functions': [
+        _lz('HuffLZ', cname='HuffLZ_ctor', ctor=True), _lz('InitializeDecompressBuffer'),
+        _lz('GetData'), _lz('GetInternalBuffer'), _lz('FillDecompressBuffer'), _lz('CopyAvailableData'), _lz('DecompressCode'),
+        _lz('GetNextCode'), _lz('GetRepeatOffset', autos={'modifiers': 'OffsetModifiers', 'i': 'unsigned int'}), _lz('WriteCharToBuffer'),
+        _lz('GetOffsetModifiers', static=True, ret_cxx='OffsetModifiers'),
+    ],
+})
